@@ -1618,7 +1618,10 @@ class PhaseFactorGate(Gate):
         """
         Return the inverse operator.
         """
-        return PhaseFactorGate(-self.phi, self.nwires)
+        invgate = PhaseFactorGate(-self.phi, self.nwires)
+        if self.prtcl:
+            invgate.on(self.prtcl)
+        return invgate
 
     def on(self, *args):
         """
